@@ -612,3 +612,470 @@ Proof. intros HT H. eapply run_from_inv; [exact HT|apply inv_init|exact H]. Qed.
 
 Lemma reachable_inv g c s : topo g -> reachable g c s -> Inv g c s.
 Proof. intros HT [evs H]. eapply run_inv; eassumption. Qed.
+
+(* ------------------------------------------------------------------ counting running nodes *)
+
+Definition r1 (x : status) : nat := if is_running x then 1 else 0.
+
+Lemma count_run_S f N : count_run f (S N) = count_run f N + r1 (f N).
+Proof.
+  unfold count_run, r1. rewrite seq_S, filter_app, app_length. simpl.
+  destruct (is_running (f N)); reflexivity.
+Qed.
+
+Lemma count_run_0 f : count_run f 0 = 0.
+Proof. reflexivity. Qed.
+
+Lemma count_run_ext f h N : (forall m, m < N -> is_running (f m) = is_running (h m)) ->
+  count_run f N = count_run h N.
+Proof.
+  induction N as [|N IH]; intro H; [reflexivity|].
+  rewrite !count_run_S. rewrite IH by (intros m Hm; apply H; lia).
+  unfold r1. rewrite (H N) by lia. reflexivity.
+Qed.
+
+Lemma count_run_zero f N : (forall m, m < N -> is_running (f m) = false) -> count_run f N = 0.
+Proof.
+  induction N as [|N IH]; intro H; [reflexivity|].
+  rewrite count_run_S. rewrite IH by (intros m Hm; apply H; lia).
+  unfold r1. rewrite (H N) by lia. reflexivity.
+Qed.
+
+Lemma count_run_upd f n x N : n < N ->
+  count_run (upd f n x) N + r1 (f n) = count_run f N + r1 x.
+Proof.
+  induction N as [|N IH]; intro H; [lia|].
+  rewrite !count_run_S.
+  assert (C : n < N \/ n = N) by lia. destruct C as [C|C].
+  - specialize (IH C). rewrite (upd_other _ f n x N) by lia. lia.
+  - subst n. rewrite upd_same.
+    rewrite (count_run_ext (upd f N x) f N).
+    + lia.
+    + intros m Hm. rewrite upd_other by lia. reflexivity.
+Qed.
+
+Lemma count_run_pos f N : count_run f N > 0 -> exists m, m < N /\ f m = Running.
+Proof.
+  induction N as [|N IH]; intro H; [rewrite count_run_0 in H; lia|].
+  rewrite count_run_S in H. unfold r1 in H. destruct (f N) eqn:E; simpl in H;
+    try (destruct IH as [m [Hm Hf]]; [lia|exists m; split; [lia|exact Hf]]).
+  exists N. split; [lia|exact E].
+Qed.
+
+Lemma is_running_release g f n m : is_running (release g f n m) = is_running (f m).
+Proof.
+  destruct (release_spec g f n m) as [[_ R]|[[P [_ [_ R]]]|[P [_ R]]]]; rewrite R; try reflexivity;
+    rewrite P; reflexivity.
+Qed.
+
+Lemma running_set_st g s n x : n < size g ->
+  running g (set_st s (upd (st s) n x)) + r1 (st s n) = running g s + r1 x.
+Proof. intro H. unfold running. proj. apply count_run_upd. exact H. Qed.
+
+Lemma running_complete_ok g s n : n < size g -> st s n = Running ->
+  running g (complete_ok g s n) + 1 = running g s.
+Proof.
+  intros H HR. unfold running. proj.
+  pose proof (count_run_upd (st s) n Ok (size g) H) as HU. rewrite HR in HU.
+  unfold r1 in HU. simpl in HU.
+  destruct (fft s).
+  - lia.
+  - rewrite (count_run_ext _ (upd (st s) n Ok)); [lia|].
+    intros m _. apply is_running_release.
+Qed.
+
+Lemma running_complete_fail g c s n : n < size g ->
+  running g (complete_fail g c s n) + r1 (st s n) = running g s.
+Proof.
+  intro H. unfold running.
+  destruct (complete_fail_spec g c s n) as [E _]. rewrite E.
+  pose proof (count_run_upd (st s) n Failed (size g) H) as HU.
+  unfold r1 in HU at 2. simpl in HU. lia.
+Qed.
+
+Lemma running_pos g s : running g s > 0 -> exists m, m < size g /\ st s m = Running.
+Proof. unfold running. apply count_run_pos. Qed.
+
+Lemma step_bound g c s e s' : running g s + dead s <= W c -> step g c s e = Some s' ->
+  running g s' + dead s' <= W c.
+Proof.
+  intros HB HS. destruct e as [n|n|n|n|n|n|n|n| | |].
+  - apply step_Start in HS. destruct HS as [Hn [Hst E]]. subst s'.
+    pose proof (running_set_st g s n Queued Hn) as HU. rewrite Hst in HU.
+    unfold r1 in HU. simpl in HU. proj. lia.
+  - apply step_CancelRecv in HS. destruct HS as [Hn [Hst [Hcp E]]]. subst s'.
+    pose proof (running_set_st g s n Skipped Hn) as HU.
+    unfold r1 in HU. destruct Hst as [Hst|Hst]; rewrite Hst in HU; simpl in HU; proj; lia.
+  - apply step_Pick in HS. destruct HS as [Hn [Hst [HL E]]]. subst s'.
+    pose proof (running_set_st g s n Running Hn) as HU. rewrite Hst in HU.
+    unfold r1 in HU. simpl in HU. proj. lia.
+  - apply step_CmdStart in HS. destruct HS as [_ [_ [_ [_ E]]]]. subst s'. exact HB.
+  - apply step_Reject in HS. destruct HS as [Hn [Hst [_ E]]]. subst s'.
+    pose proof (running_complete_fail g c s n Hn) as HU. rewrite Hst in HU.
+    unfold r1 in HU. simpl in HU.
+    destruct (complete_fail_spec g c s n) as [_ [_ [_ [E4 _]]]]. rewrite E4. lia.
+  - apply step_FinishOk in HS. destruct HS as [Hn [Hst E]]. subst s'.
+    pose proof (running_complete_ok g s n Hn Hst) as HU.
+    change (dead (complete_ok g s n)) with (dead s). lia.
+  - apply step_FinishFail in HS. destruct HS as [Hn [Hst E]]. subst s'.
+    pose proof (running_complete_fail g c s n Hn) as HU. rewrite Hst in HU.
+    unfold r1 in HU. simpl in HU.
+    destruct (complete_fail_spec g c s n) as [_ [_ [_ [E4 _]]]]. rewrite E4. lia.
+  - apply step_FinishCancelled in HS. destruct HS as [Hn [Hst [_ E]]]. subst s'.
+    pose proof (running_set_st g s n Aborted Hn) as HU. rewrite Hst in HU.
+    unfold r1 in HU. simpl in HU. proj. lia.
+  - apply step_CtxCancel in HS. destruct HS as [_ E]. subst s'. exact HB.
+  - apply step_WorkerExit in HS. destruct HS as [_ [HL E]]. subst s'.
+    change (running g s + S (dead s) <= W c). lia.
+  - apply step_WalkReturn in HS. destruct HS as [_ [_ E]]. subst s'. exact HB.
+Qed.
+
+Lemma run_from_bound g c evs : forall s s', running g s + dead s <= W c ->
+  run_from g c s evs = Some s' -> running g s' + dead s' <= W c.
+Proof.
+  induction evs as [|e r IH]; intros s s' HB HR; simpl in HR.
+  - inversion HR. subst. exact HB.
+  - destruct (step g c s e) as [s1|] eqn:E; [|discriminate HR].
+    eapply IH; [|exact HR]. eapply step_bound; eassumption.
+Qed.
+
+Lemma running_init g : running g (init g) = 0.
+Proof.
+  unfold running. apply count_run_zero. intros m _. unfold init. cbn [st].
+  destruct (deps g m); reflexivity.
+Qed.
+
+Lemma worker_bound g c evs s : run g c evs = Some s -> running g s + dead s <= W c.
+Proof.
+  intro H. eapply run_from_bound; [|exact H]. rewrite running_init. unfold init. cbn [dead]. lia.
+Qed.
+
+(* ------------------------------------------------------------------ C03: dependencies first *)
+
+Lemma inv_deps_reach g c s : Inv g c s -> forall a n, reach g a n -> active (st s n) -> st s a = Ok.
+Proof.
+  intros HI a n HR. induction HR as [a n Hd|a b n Hab IH Hd]; intro HA.
+  - eapply I_deps; eassumption.
+  - apply IH. assert (E : st s b = Ok) by (eapply I_deps; eassumption).
+    rewrite E. unfold active. auto.
+Qed.
+
+Lemma deps_first : forall g c evs s n a, topo g -> wf_graph g -> W c >= 1 ->
+  run g c evs = Some s ->
+  (st s n = Ready \/ st s n = Queued \/ st s n = Running \/ st s n = Ok \/ st s n = Failed \/
+   st s n = Aborted) ->
+  reach g a n -> st s a = Ok.
+Proof.
+  intros g c evs s n a HT _ _ HR HA Hre.
+  eapply inv_deps_reach; [eapply run_inv; eassumption|exact Hre|exact HA].
+Qed.
+
+(* ------------------------------------------------------------------ status transitions *)
+
+(* the second argument tells whether fail-fast has been triggered: then nothing is released *)
+Definition legal (fftb : bool) (x y : status) : Prop :=
+  match x, y with
+  | Parked, Ready => fftb = false
+  | Parked, Skipped | Ready, Skipped | Ready, Queued | Queued, Running | Queued, Failed
+  | Running, Ok | Running, Failed | Running, Aborted => True
+  | _, _ => False
+  end.
+
+Lemma point_legal (b : bool) (f : nat -> status) n x m : legal b (f n) x ->
+  upd f n x m = f m \/ legal b (f m) (upd f n x m).
+Proof.
+  intro H. destruct (Nat.eq_dec m n) as [E|E].
+  - subst m. right. rewrite upd_same. exact H.
+  - left. apply upd_other. exact E.
+Qed.
+
+Lemma step_status_cases g c s e s' : step g c s e = Some s' ->
+  forall m, st s' m = st s m \/ legal (fft s) (st s m) (st s' m).
+Proof.
+  intros HS m. destruct e as [n|n|n|n|n|n|n|n| | |].
+  - apply step_Start in HS. destruct HS as [Hn [Hst E]]. subst s'. proj.
+    apply point_legal. rewrite Hst. exact I.
+  - apply step_CancelRecv in HS. destruct HS as [Hn [Hst [Hcp E]]]. subst s'. proj.
+    apply point_legal. destruct Hst as [Hst|Hst]; rewrite Hst; exact I.
+  - apply step_Pick in HS. destruct HS as [Hn [Hst [HL E]]]. subst s'. proj.
+    apply point_legal. rewrite Hst. exact I.
+  - apply step_CmdStart in HS. destruct HS as [_ [_ [_ [_ E]]]]. subst s'. left. reflexivity.
+  - apply step_Reject in HS. destruct HS as [Hn [Hst [_ E]]]. subst s'.
+    destruct (complete_fail_spec g c s n) as [E1 _]. rewrite E1.
+    apply point_legal. rewrite Hst. exact I.
+  - apply step_FinishOk in HS. destruct HS as [Hn [Hst E]]. subst s'.
+    destruct (complete_ok_cases g s n m Hst) as [H|[[H1 H2]|[H1 [H2 [H3 _]]]]].
+    + left. exact H.
+    + right. subst m. rewrite H2, Hst. exact I.
+    + right. rewrite H1, H2. exact H3.
+  - apply step_FinishFail in HS. destruct HS as [Hn [Hst E]]. subst s'.
+    destruct (complete_fail_spec g c s n) as [E1 _]. rewrite E1.
+    apply point_legal. rewrite Hst. exact I.
+  - apply step_FinishCancelled in HS. destruct HS as [Hn [Hst [_ E]]]. subst s'. proj.
+    apply point_legal. rewrite Hst. exact I.
+  - apply step_CtxCancel in HS. destruct HS as [_ E]. subst s'. left. reflexivity.
+  - apply step_WorkerExit in HS. destruct HS as [_ [_ E]]. subst s'. left. reflexivity.
+  - apply step_WalkReturn in HS. destruct HS as [_ [_ E]]. subst s'. left. reflexivity.
+Qed.
+
+(* flags are never reset *)
+Lemma step_flags g c s e s' : step g c s e = Some s' ->
+  (fft s = true -> fft s' = true) /\ (ctxc s = true -> ctxc s' = true) /\
+  (ret s = true -> ret s' = true) /\ (forall n, cmd s n = true -> cmd s' n = true) /\
+  dead s <= dead s'.
+Proof.
+  intros HS. destruct e as [n|n|n|n|n|n|n|n| | |].
+  - apply step_Start in HS. destruct HS as [_ [_ E]]. subst s'. proj. repeat split; auto; lia.
+  - apply step_CancelRecv in HS. destruct HS as [_ [_ [_ E]]]. subst s'. proj. repeat split; auto; lia.
+  - apply step_Pick in HS. destruct HS as [_ [_ [_ E]]]. subst s'. proj. repeat split; auto; lia.
+  - apply step_CmdStart in HS. destruct HS as [_ [_ [_ [_ E]]]]. subst s'. proj.
+    repeat split; auto. intros m H. destruct (Nat.eq_dec m n) as [E|E].
+    + subst. apply upd_same.
+    + rewrite upd_other by exact E. exact H.
+  - apply step_Reject in HS. destruct HS as [_ [_ [_ E]]]. subst s'.
+    destruct (complete_fail_spec g c s n) as [_ [E2 [E3 [E4 [E5 [_ Hc]]]]]].
+    rewrite E2, E3, E4, E5. repeat split; auto.
+    intro H. destruct Hc as [[_ [F _]]|[[_ [_ [F _]]]|[F _]]]; congruence.
+  - apply step_FinishOk in HS. destruct HS as [_ [_ E]]. subst s'. proj. repeat split; auto; lia.
+  - apply step_FinishFail in HS. destruct HS as [_ [_ E]]. subst s'.
+    destruct (complete_fail_spec g c s n) as [_ [E2 [E3 [E4 [E5 [_ Hc]]]]]].
+    rewrite E2, E3, E4, E5. repeat split; auto.
+    intro H. destruct Hc as [[_ [F _]]|[[_ [_ [F _]]]|[F _]]]; congruence.
+  - apply step_FinishCancelled in HS. destruct HS as [_ [_ [_ E]]]. subst s'. proj. repeat split; auto; lia.
+  - apply step_CtxCancel in HS. destruct HS as [_ E]. subst s'. proj. repeat split; auto; lia.
+  - apply step_WorkerExit in HS. destruct HS as [_ [_ E]]. subst s'. proj. repeat split; auto; lia.
+  - apply step_WalkReturn in HS. destruct HS as [_ [_ E]]. subst s'. proj. repeat split; auto; lia.
+Qed.
+
+(* ------------------------------------------------------------------ C03: at most once *)
+
+Lemma count_potential g c (P : state -> nat) e0 :
+  (forall s e s', step g c s e = Some s' -> P s' <= P s) ->
+  (forall s s', step g c s e0 = Some s' -> P s' < P s) ->
+  forall evs s s', run_from g c s evs = Some s' -> count_ev e0 evs + P s' <= P s.
+Proof.
+  intros Hmono Hstrict. induction evs as [|e r IH]; intros s s' HR; simpl in HR |- *.
+  - inversion HR. lia.
+  - destruct (step g c s e) as [s1|] eqn:E; [|discriminate HR].
+    specialize (IH s1 s' HR). destruct (event_eqb e0 e) eqn:EE.
+    + apply event_eqb_eq in EE. subst e. apply Hstrict in E. lia.
+    + apply Hmono in E. lia.
+Qed.
+
+Definition pS (x : status) : nat := match x with Parked | Ready => 1 | _ => 0 end.
+Definition pP (x : status) : nat := match x with Parked | Ready | Queued => 1 | _ => 0 end.
+
+Lemma legal_pS b x y : legal b x y -> pS y <= pS x.
+Proof. destruct x, y; simpl; intro H; try lia; contradiction. Qed.
+
+Lemma legal_pP b x y : legal b x y -> pP y <= pP x.
+Proof. destruct x, y; simpl; intro H; try lia; contradiction. Qed.
+
+Lemma at_most_once : forall g c evs s n, run g c evs = Some s ->
+  count_ev (Start n) evs <= 1 /\ count_ev (Pick n) evs <= 1 /\ count_ev (CmdStart n) evs <= 1.
+Proof.
+  intros g c evs s n HR. unfold run in HR. repeat split.
+  - pose proof (count_potential g c (fun s => pS (st s n)) (Start n)) as HP.
+    cbv beta in HP. specialize (fun A B => HP A B evs (init g) s HR).
+    assert (HB : pS (st (init g) n) <= 1) by (destruct (st (init g) n); simpl; lia).
+    cut (count_ev (Start n) evs + pS (st s n) <= pS (st (init g) n)); [lia|].
+    apply HP.
+    + intros s0 e s1 HS. destruct (step_status_cases _ _ _ _ _ HS n) as [E|L].
+      * rewrite E. lia.
+      * eapply legal_pS. exact L.
+    + intros s0 s1 HS. apply step_Start in HS. destruct HS as [_ [Hst E]]. subst s1. proj.
+      rewrite upd_same, Hst. simpl. lia.
+  - pose proof (count_potential g c (fun s => pP (st s n)) (Pick n)) as HP.
+    cbv beta in HP. specialize (fun A B => HP A B evs (init g) s HR).
+    assert (HB : pP (st (init g) n) <= 1) by (destruct (st (init g) n); simpl; lia).
+    cut (count_ev (Pick n) evs + pP (st s n) <= pP (st (init g) n)); [lia|].
+    apply HP.
+    + intros s0 e s1 HS. destruct (step_status_cases _ _ _ _ _ HS n) as [E|L].
+      * rewrite E. lia.
+      * eapply legal_pP. exact L.
+    + intros s0 s1 HS. apply step_Pick in HS. destruct HS as [_ [Hst [_ E]]]. subst s1. proj.
+      rewrite upd_same, Hst. simpl. lia.
+  - pose proof (count_potential g c (fun s => if cmd s n then 0 else 1) (CmdStart n)) as HP.
+    cbv beta in HP. specialize (fun A B => HP A B evs (init g) s HR).
+    cut (count_ev (CmdStart n) evs + (if cmd s n then 0 else 1) <= (if cmd (init g) n then 0 else 1));
+      [unfold init; cbn [cmd]; destruct (cmd s n); lia|].
+    apply HP.
+    + intros s0 e s1 HS. destruct (step_flags _ _ _ _ _ HS) as [_ [_ [_ [HC _]]]].
+      specialize (HC n). destruct (cmd s0 n); [rewrite HC by reflexivity; lia|].
+      destruct (cmd s1 n); lia.
+    + intros s0 s1 HS. apply step_CmdStart in HS. destruct HS as [_ [_ [Hc [_ E]]]]. subst s1. proj.
+      rewrite upd_same, Hc. lia.
+Qed.
+
+(* ------------------------------------------------------------------ C03: examples *)
+
+Lemma worker_bound_tight_example :
+  exists evs s, run (antichain 4) (mkConfig 3 false) evs = Some s /\
+    running (antichain 4) s = 3 /\ st s 3 = Queued /\
+    step (antichain 4) (mkConfig 3 false) s (Pick 3) = None.
+Proof.
+  exists [Start 0; Start 1; Start 2; Start 3; Pick 0; Pick 1; Pick 2].
+  eexists. split; [vm_compute; reflexivity|].
+  split; [vm_compute; reflexivity|]. split; vm_compute; reflexivity.
+Qed.
+
+Lemma diamond_example :
+  exists evs s, run diamond (mkConfig 2 false) evs = Some s /\
+    terminal diamond (mkConfig 2 false) s /\
+    st s 0 = Ok /\ st s 1 = Ok /\ st s 2 = Ok /\ st s 3 = Ok.
+Proof.
+  exists [Start 0; Pick 0; FinishOk 0; Start 1; Start 2; Pick 1; Pick 2; FinishOk 1; FinishOk 2;
+          Start 3; Pick 3; FinishOk 3; WalkReturn].
+  eexists. split; [vm_compute; reflexivity|].
+  unfold terminal. repeat split; vm_compute; reflexivity.
+Qed.
+
+(* node 3 waits for ALL its dependencies: 1 is done, 2 still runs, 3 stays parked *)
+Lemma diamond_all_not_any_example :
+  exists evs s, run diamond (mkConfig 2 false) evs = Some s /\
+    st s 1 = Ok /\ st s 2 = Running /\ st s 3 = Parked /\
+    step diamond (mkConfig 2 false) s (Start 3) = None.
+Proof.
+  exists [Start 0; Pick 0; FinishOk 0; Start 1; Start 2; Pick 1; Pick 2; FinishOk 1].
+  eexists. split; [vm_compute; reflexivity|].
+  repeat split; vm_compute; reflexivity.
+Qed.
+
+(* ------------------------------------------------------------------ C04: enabledness *)
+
+(* events performed by the scheduler itself (or by a running task returning, which is the
+   environment's obligation); excludes the external CtxCancel and the error/cancellation paths *)
+Definition system_event (e : event) : bool :=
+  match e with
+  | Start _ | CancelRecv _ | Pick _ | FinishOk _ | WalkReturn => true
+  | _ => false
+  end.
+
+Ltac in_list := simpl; repeat (first [left; reflexivity | right]).
+
+Lemma in_all_events_node N n e : n < N -> In e (node_events n) -> In e (all_events N).
+Proof.
+  intros Hn He. unfold all_events. apply in_or_app. left. apply in_flat_map.
+  exists n. split; [apply in_seq; lia|exact He].
+Qed.
+
+Lemma en_Start g c s n : n < size g -> st s n = Ready -> In (Start n) (enabled g c s).
+Proof.
+  intros Hn Hst. unfold enabled. apply filter_In. split.
+  - apply in_all_events_node with n; [exact Hn|in_list].
+  - unfold enabledb, step. apply Nat.ltb_lt in Hn. rewrite Hn, Hst. reflexivity.
+Qed.
+
+Lemma en_CancelRecv g c s n : n < size g -> (st s n = Parked \/ st s n = Ready) -> cp s n = true ->
+  In (CancelRecv n) (enabled g c s).
+Proof.
+  intros Hn Hst Hcp. unfold enabled. apply filter_In. split.
+  - apply in_all_events_node with n; [exact Hn|in_list].
+  - unfold enabledb, step. apply Nat.ltb_lt in Hn. rewrite Hn, Hcp.
+    destruct Hst as [Hst|Hst]; rewrite Hst; reflexivity.
+Qed.
+
+Lemma en_Pick g c s n : n < size g -> st s n = Queued -> running g s + dead s < W c ->
+  In (Pick n) (enabled g c s).
+Proof.
+  intros Hn Hst HL. unfold enabled. apply filter_In. split.
+  - apply in_all_events_node with n; [exact Hn|in_list].
+  - unfold enabledb, step. apply Nat.ltb_lt in Hn. apply Nat.ltb_lt in HL.
+    rewrite Hn, Hst, HL. reflexivity.
+Qed.
+
+Lemma en_FinishOk g c s n : n < size g -> st s n = Running -> In (FinishOk n) (enabled g c s).
+Proof.
+  intros Hn Hst. unfold enabled. apply filter_In. split.
+  - apply in_all_events_node with n; [exact Hn|in_list].
+  - unfold enabledb, step. apply Nat.ltb_lt in Hn. rewrite Hn, Hst. reflexivity.
+Qed.
+
+Lemma en_WalkReturn g c s : ret s = false -> (all_final g s = true \/ inner_cancelled s = true) ->
+  In WalkReturn (enabled g c s).
+Proof.
+  intros Hr Hor. unfold enabled. apply filter_In. split.
+  - unfold all_events. apply in_or_app. right. in_list.
+  - unfold enabledb, step. rewrite Hr. apply orb_true_iff in Hor. rewrite Hor. reflexivity.
+Qed.
+
+Lemma forallb_false_ex A (p : A -> bool) l : forallb p l = false -> exists x, In x l /\ p x = false.
+Proof.
+  induction l as [|a l IH]; simpl; intro H; [discriminate H|].
+  apply andb_false_iff in H. destruct H as [H|H].
+  - exists a. auto.
+  - destruct (IH H) as [x [Hx Hp]]. exists x. auto.
+Qed.
+
+Lemma queued_progress g c s n : n < size g -> st s n = Queued ->
+  running g s + dead s <= W c -> dead s < W c ->
+  exists e, In e (enabled g c s) /\ system_event e = true.
+Proof.
+  intros Hn Hst HB HD.
+  destruct (Nat.lt_ge_cases (running g s + dead s) (W c)) as [L|L].
+  - exists (Pick n). split; [apply en_Pick; assumption|reflexivity].
+  - destruct (running_pos g s) as [m [Hm HR]]; [lia|].
+    exists (FinishOk m). split; [apply en_FinishOk; assumption|reflexivity].
+Qed.
+
+Lemma progress_open g c s : topo g -> Inv g c s ->
+  running g s + dead s <= W c -> W c >= 1 ->
+  ret s = false -> inner_cancelled s = false ->
+  forall n, n < size g -> is_final (st s n) = false ->
+  exists e, In e (enabled g c s) /\ system_event e = true.
+Proof.
+  intros HT HI HB HW Hr Hic. apply inner_cancelled_false in Hic. destruct Hic as [EF EC].
+  induction n as [n IH] using lt_wf_ind. intros Hn Hnf.
+  destruct (st s n) eqn:E; try discriminate Hnf.
+  - (* Parked *)
+    destruct (I_eager _ _ _ HI EF n E) as [d [Hd Hno]].
+    assert (Hdn : d < n) by (apply HT; exact Hd).
+    assert (Hcp : cp s n = true -> exists e, In e (enabled g c s) /\ system_event e = true).
+    { intro Hcp. exists (CancelRecv n). split; [apply en_CancelRecv; auto|reflexivity]. }
+    destruct (st s d) eqn:Ed; try (apply (IH d Hdn); [lia|rewrite Ed; reflexivity]).
+    + contradiction Hno. reflexivity.
+    + apply Hcp. apply (I_fail _ _ _ HI d n Ed). apply reach_step. exact Hd.
+    + pose proof (I_skip _ _ _ HI d Ed) as Hcd.
+      destruct (I_cp _ _ _ HI d Hcd) as [[a [Ha Hr']]|[H|H]]; try congruence.
+      apply Hcp. apply (I_fail _ _ _ HI a n Ha). eapply reach_trans; eassumption.
+    + destruct (I_abort _ _ _ HI d Ed) as [H|H]; congruence.
+  - exists (Start n). split; [apply en_Start; assumption|reflexivity].
+  - apply (queued_progress g c s n Hn E HB).
+    destruct (dead s) eqn:ED; [lia|].
+    assert (HC : closed s = true) by (apply (I_dead _ _ _ HI); lia).
+    unfold closed in HC. rewrite EC, Hr in HC. discriminate HC.
+  - exists (FinishOk n). split; [apply en_FinishOk; assumption|reflexivity].
+Qed.
+
+Lemma no_deadlock : forall g c s, topo g -> wf_graph g -> W c >= 1 ->
+  reachable g c s -> ~ terminal g c s ->
+  exists e, In e (enabled g c s) /\ system_event e = true.
+Proof.
+  intros g c s HT _ HW Hreach Hnt.
+  pose proof (reachable_inv g c s HT Hreach) as HI.
+  assert (HB : running g s + dead s <= W c).
+  { destruct Hreach as [evs HR]. eapply worker_bound. exact HR. }
+  destruct (ret s) eqn:Hr.
+  - (* Walk has returned *)
+    unfold terminal, terminalb in Hnt. rewrite Hr in Hnt. simpl in Hnt.
+    destruct (forallb (settledb c s) (seq 0 (size g))) eqn:EA; [contradiction Hnt; reflexivity|].
+    apply forallb_false_ex in EA. destruct EA as [n [Hn Hs]]. apply in_seq in Hn.
+    assert (Hn' : n < size g) by lia.
+    unfold settledb in Hs. apply orb_false_iff in Hs. destruct Hs as [Hnf Hq].
+    destruct (I_ret _ _ _ HI Hr) as [H|[_ Hcp]].
+    { rewrite (H n Hn') in Hnf. discriminate Hnf. }
+    destruct (st s n) eqn:E; try discriminate Hnf.
+    + exists (CancelRecv n). split; [apply en_CancelRecv; auto|reflexivity].
+    + exists (Start n). split; [apply en_Start; assumption|reflexivity].
+    + apply (queued_progress g c s n Hn' E HB).
+      unfold closed in Hq. rewrite Hr in Hq. rewrite orb_true_r in Hq. simpl in Hq.
+      apply Nat.eqb_neq in Hq. lia.
+    + exists (FinishOk n). split; [apply en_FinishOk; assumption|reflexivity].
+  - destruct (inner_cancelled s) eqn:EI.
+    { exists WalkReturn. split; [apply en_WalkReturn; auto|reflexivity]. }
+    destruct (all_final g s) eqn:EA.
+    { exists WalkReturn. split; [apply en_WalkReturn; auto|reflexivity]. }
+    unfold all_final in EA. apply forallb_false_ex in EA. destruct EA as [n [Hn Hnf]].
+    apply in_seq in Hn.
+    apply (progress_open g c s HT HI HB HW Hr EI n); [lia|exact Hnf].
+Qed.
